@@ -230,7 +230,8 @@ def item_dummy(repo, out):
         raise TranslateError('dummy_sensor_getter: the branch for value=None is not a single if-chain on the dtype')
     table = []
     cur = node[0]
-    fillers = {'np.dtype(dtype).type(np.nan)': 'nan', 'np.dtype(dtype).type(-1)': '-1', "''": 'empty', 'False': 'False'}
+    fillers = {'np.dtype(dtype).type(np.nan)': 'nan', 'np.dtype(dtype).type(-1)': '-1', "''": 'empty', 'False': 'False',
+               'np.array(-1).astype(dtype)[()]': '-1'}      # the latter: -1 / all bits set, the repair of finding C19-F4
     while True:
         classes = []
         tests = cur.test.values if isinstance(cur.test, ast.BoolOp) and isinstance(cur.test.op, ast.Or) else [cur.test]
